@@ -516,8 +516,8 @@ def run(ctx):
     sweep_tasks = []
     for pr in chosen:
         keys = {_op_key(pr[2]), _op_key(pr[4])}
-        sweep_tasks.append({"pair": pr, "seed": ctx.seed, "max_points": 100 if quick else 400, "wall_s": 45.0 if quick else 600.0, "alone": {k: alone_map[k] for k in keys if k in alone_map}})
-    sweep_done = ctx.map("task_sweep", sweep_tasks, budget_s=ctx.budget_s * 0.5, force=True, min_tasks=12)
+        sweep_tasks.append({"pair": pr, "seed": ctx.seed, "max_points": 100 if quick else 400, "wall_s": 45.0 if quick else 150.0, "alone": {k: alone_map[k] for k in keys if k in alone_map}})
+    sweep_done = ctx.map("task_sweep", sweep_tasks, budget_s=ctx.budget_s * (0.5 if quick else 0.8), force=True, min_tasks=12)
     violations, inter, samples = [], set(), []
     n_eval = steps = switches = contended = shared = open_after = 0
     sweep_points = sweep_hot = sweep_complete = 0
